@@ -6,6 +6,7 @@ import (
 	"os"
 	"os/exec"
 	"path/filepath"
+	"strings"
 
 	"verifharness/internal/dbx"
 	"verifharness/internal/refmodel"
@@ -159,7 +160,8 @@ func tailStr(s string, n int) string {
 // c05History generates a history with reopen steps and a final overwrite phase.
 func c05History(seed int64, idx int, tier string) []seqrun.Step {
 	rng := seqrun.Rng(seed, "C05", idx)
-	keys := txKeys[:3]
+	// a few ordinary keys, a long one (records of very different lengths), a non-ASCII one
+	keys := []string{"a", "b", "c", strings.Repeat("L", 300+rng.Intn(900)), "ключ/🔑"}[:3+idx%3]
 	p := seqrun.Profile{
 		Steps: tierN(tier, 36, 60), Keys: keys, Lens: []int{14, 14, 5000}, MaxOpen: 3, TxBias: 45,
 		TagPrefix: fmt.Sprintf("h%d-", idx),
